@@ -442,6 +442,41 @@ def derived_priors(ctx):
                 ctx.violation("C15:derived-prior-raises:%s" % type(ex).__name__, "%s (%s): save/load raised %r" % (nm, where, ex), dict(kind="derived-prior", which=nm, where=where))
 
 
+def tricky_strings(ctx):
+    """string-valued arguments that LOOK like something else to a YAML reader (numbers in every notation, booleans, null, dates,
+    key syntax) come back as the same strings: prior names, names given to ties, entries of string lists"""
+    strs = ["5e2", "1e3", "12e4", "2E-7", "1.5e3", "1.5", "-3", "0x10", "0o17", "1_000", ".5", "5.", "1e+3", "nan", ".inf", "-.inf", ".NaN", "true", "False", "yes",
+            "no", "on", "null", "~", "", " x", "x ", "2024-01-01", "1:r", "a: b", "- a", "#c", "!tag", "&a", "*a", "[1]", "{a}", "'q'", '"q"', "%x", "@x", "`x", "0", "007", "1,5", "3:25"]
+    if ctx.tier == "quick":
+        strs = strs[:12] + [strs[j] for j in sorted(ctx.rng.choice(np.arange(12, len(strs)), size=10, replace=False).tolist())]
+    for sname in strs:
+        ctx.tried("tricky-string", sname)
+        info = dict(kind="tricky-string", string=sname)
+        try:
+            pr = Uniform(1.0, 2.0, guess=1.5, name=sname)
+            back, texts = cycle(pr, 2)
+            if not (isinstance(back.name, str) and back.name == sname):
+                ctx.violation("C15:string-argument", "Uniform(name=%r) reloads with name %r (%s)" % (sname, back.name, type(back.name).__name__), info)
+                continue
+            if len(set(texts)) != 1:
+                ctx.violation("C15:string-argument:text", "Uniform(name=%r): re-saving the reloaded object changes the text" % sname, info)
+                continue
+            if sname.strip() == sname and sname and ":" not in sname:
+                shared = Uniform(1.4, 1.7, guess=1.5)
+                sc = Spheres([Sphere(n=shared, r=Uniform(0.3, 0.6, guess=0.45), center=[Uniform(2 * j, 2 * j + 1), 0.0, Uniform(5, 9)]) for j in range(2)], warn=False)
+                model = AlphaModel(sc, alpha=0.8, noise_sd=0.1, medium_index=1.33, illum_wavelen=0.66, illum_polarization=(1, 0), theory=Mie())
+                rn = [nm for nm in model._parameter_names if nm.endswith('r')]
+                if len(rn) >= 2:
+                    model.add_tie(rn, new_name=sname)
+                    mb, mt = cycle(model, 2)
+                    if mb._parameter_names != model._parameter_names or any(not isinstance(nm, str) for nm in mb._parameter_names):
+                        ctx.violation("C15:string-argument:tie-name", "a model whose tie was named %r reloads with parameter names %r (were %r)" % (sname, mb._parameter_names, model._parameter_names), info)
+                    elif len(set(mt)) != 1:
+                        ctx.violation("C15:string-argument:tie-name-text", "a model whose tie was named %r: re-saving the reloaded model changes the text" % sname, info)
+        except Exception as ex:
+            ctx.violation("C15:string-argument-raises:%s" % type(ex).__name__, "save/load of an object with the string argument %r raised %r" % (sname, ex), info)
+
+
 def show_maps(model):
     def sh(o):
         if isinstance(o, np.ufunc):
@@ -475,6 +510,7 @@ def search(ctx):
         if r is not True:
             ctx.violation(key, what + (" [%r]" % (r,) if r is not False else ""), dict(kind="probe", key=key))
     derived_priors(ctx)
+    tricky_strings(ctx)
     n = ctx.n(100, 1000)
     for i in range(n):
         try:
